@@ -172,6 +172,9 @@ def reducers_clause(model, rep, funcs):
         st = [c for c in calls_in(f) if (dotted(c.func) or "").endswith("stack")]
         rep.instance("SLOT.mean", f.loc())
         ok = len(st) == 1 and (Matcher(f).has("da.stack(self.construct_loading_tasks(output_shape, $$xp), axis=0)") or
+                               # DaskArrayList.as_stack(axis) is da.stack(self, axis=axis) (acryo/_dask.py)
+                               Matcher(f).has("self.construct_loading_tasks(output_shape, $$xp).as_stack(axis=0)") or
+                               Matcher(f).has("self.construct_loading_tasks(self._get_output_shape(output_shape), $$xp).as_stack(axis=0)") or
                                Matcher(f).has("da.stack(self.construct_loading_tasks(self._get_output_shape(output_shape), $$xp), axis=0)"))
         rep.ob("SLOT", f.anchor, "construct_dask stacks all loading tasks along a new axis 0", ok, norm_src(st[0])[:80] if st else "", node=f.node, fn=f,
                clause="1 reducers", stmt="def construct_dask")
